@@ -1169,10 +1169,14 @@ func main() {
 	}
 	wg.Wait()
 	// a missing event is retried in isolation before it is reported
-	retried := 0
+	// (if the first three stall again the stalls are systematic: the others are reported as they are)
+	retried, again := 0, 0
 	var stallNotes []string
 	for i := range results {
 		if results[i].stalled || results[i].err != nil {
+			if retried >= 3 && again == retried {
+				continue
+			}
 			retried++
 			if results[i].err == nil && len(stallNotes) < 5 {
 				note := []string{}
@@ -1186,6 +1190,9 @@ func main() {
 				stallNotes = append(stallNotes, strings.Join(note, " ; "))
 			}
 			results[i] = one(i)
+			if results[i].stalled || results[i].err != nil {
+				again++
+			}
 		}
 	}
 	run.Extra["retried_in_isolation"] = retried
